@@ -516,10 +516,17 @@ func cmdCheck(args []string) int {
 			to := timeout
 			if r.O.Expect == "sat" {
 				to = 6 * time.Second
+				if *tier != "thorough" {
+					to = 4 * time.Second
+				}
 			}
 			if knownNames[r.O.Name] {
 				// a recorded finding is expected to stay undischarged: do not spend the long limits on it
 				to = 10 * time.Second
+			}
+			if r.O.Expect == "sat" && *tier != "thorough" {
+				r.Res = runSolversLight(r.Q, file, to, seed)
+				return
 			}
 			r.Res = runSolvers(r.Q, file, to, r.O.Expect == "unsat", mt, *tier == "thorough" && r.O.Expect == "unsat", seed)
 			if r.O.Expect == "unsat" && r.Res.Status != "unsat" && r.Res.Status != "sat" && !knownNames[r.O.Name] && !*noRetry && atomic.AddInt32(&retries, 1) <= 6 {
